@@ -982,7 +982,7 @@ func c18(r *core.Run) {
 			}
 		}
 	})
-	r.Check("D3/K2/return-is-nonblocking-receive", "Limit.Return is a non-blocking receive from the pool: nil only when a slot was received, ErrLimitReturn otherwise", func(o *core.O) {
+	r.Check("D3/K2/return-is-nonblocking-receive", "Limit.Return is a non-blocking receive from the pool: nil only when a slot was received, ErrLimitReturn otherwise — after the receive found the pool empty, or without trying only on paths that are infeasible for a pool whose capacity (and length) is 1, 2 or large, i.e. taken only when nothing can be outstanding", func(o *core.O) {
 		f := p.Func(syncxPkg, "Limit", "Return")
 		if !o.Need(f != nil, "Limit.Return") {
 			return
@@ -1010,8 +1010,18 @@ func c18(r *core.Run) {
 			if !core.IsGlobal(syncxPkg, "ErrLimitReturn")(s.val) {
 				o.Fail(p.InstrPos(s.in), "Return fails with %s instead of ErrLimitReturn", core.Describe(s.val))
 			}
-			if w := core.Requires(f, core.Is(s.in), core.Not(got)); w != nil {
+			// (rule updated with fix 4707767: a limit of 0 refuses before the select, so "every path to the
+			// error passes the select's default" became "no path from a received slot, and no path around the
+			// select that a pool with room for a borrow can take")
+			gotEdges, notGotEdges := core.EdgesOf(f, got)
+			if w := core.ReachableFromEdges(gotEdges, core.Is(s.in), nil); w != nil {
 				o.Fail(p.InstrPos(s.in), "Return reports an error although a slot was released")
+			}
+			for _, k := range []int64{1, 2, 1 << 20} {
+				if _, ok := core.Reach(core.Q{From: []core.At{core.Entry(f)}, Target: core.Is(s.in), Cut: c18CutEither(core.CutSet(notGotEdges), core.ConcreteCut(f, c18CapOrLenOf(poolLoad), k))}); ok {
+					o.Fail(p.InstrPos(s.in), "Return reports an error without trying to receive although the pool (capacity/length %d) can hold outstanding borrows: a borrowed slot is never released", k)
+					break
+				}
 			}
 		}
 	})
@@ -1727,6 +1737,7 @@ func c18(r *core.Run) {
 	})
 
 	c18R8(r)
+	c18R9b(r, inPkg) // D5/K1/manager-created-recorded-or-closed, D3/K2/return-pairs-with-completed-borrow (c18_r9b.go)
 
 	r.Check("D5/K5/donechan-close-once", "the done channel of DoneChan is closed only inside the function passed to DoneChan.once.Do", func(o *core.O) {
 		isClose := c18Builtin("close", core.FieldLoad("DoneChan.done"))
